@@ -406,6 +406,19 @@ func (w *World) BuildMsg(e Event) (msg sdk.Msg, commit func()) {
 			n = len(w.Bot.Pending)
 		}
 		ids := append([]uint64{}, w.Bot.Pending[:n]...)
+		if e.Var == "one-id-already-processing" {
+			// the quorum signed a list whose last id went into an earlier batch in the meantime: the
+			// vote is genuine, the message must fail as a whole after the vote was verified
+			var closed []uint64
+			for _, b := range w.Bot.Batches {
+				closed = append(closed, b.IDs...)
+			}
+			if len(closed) == 0 {
+				return nil, nil
+			}
+			sort.Slice(closed, func(i, j int) bool { return closed[i] < closed[j] })
+			ids = append(ids, closed[0])
+		}
 		var outs []sim.BtcOut
 		for range ids {
 			outs = append(outs, sim.BtcOut{Value: 90000, Script: w.UserScr})
@@ -423,6 +436,9 @@ func (w *World) BuildMsg(e Event) (msg sdk.Msg, commit func()) {
 			for i, j := 0, len(m.Id)-1; i < j; i, j = i+1, j-1 {
 				m.Id[i], m.Id[j] = m.Id[j], m.Id[i]
 			}
+			return m, func() {}
+		}
+		if e.Var == "one-id-already-processing" {
 			return m, func() {}
 		}
 		return m, func() {
